@@ -12,7 +12,7 @@ CONSTANTS
   Dev_cind = FALSE
   Dev_osrep = FALSE
   Dev_dparr = FALSE
-  DocIds = {"D1", "D2", "D3", "D4", "D5", "D6", "D7", "D8"}
+  DocIds = {"D1", "D2", "D3", "D4", "D5", "D6", "D7", "D8", "D9"}
   V2Lens = {40, 64, 128}
   V4Stm = {"RC4", "AES128", "Identity"}
   V4Str = {"RC4", "AES128", "Identity"}
